@@ -98,4 +98,42 @@ def obs_c05_valnone(case):
             "attrsg": attrs_digest(mg) if mg is not None else []}
 
 
-OBSERVERS = {"c01": obs_c01, "c05_parse": obs_c05_parse, "c05_valnone": obs_c05_valnone}
+class ObserverTimeout(BaseException):
+    """raised by the SIGALRM watchdog inside an observer (pure-Python hangs are interruptible)"""
+
+
+def _alarm(signum, frame):
+    raise ObserverTimeout()
+
+
+def obs_c08(case):
+    """case: {f: hex, mode, pbf, validate}; parse + inspect everything; watchdog 20 s"""
+    import signal
+
+    f = bytes.fromhex(case["f"])
+    ev = {"prop": "C08", "kind": "parse8", "f": list(f) if len(f) <= 64 else list(f[:64]), "flen": len(f), "out": "", "inspect": []}
+    old = signal.signal(signal.SIGALRM, _alarm)
+    signal.alarm(case.get("timeout", 20))
+    try:
+        m, out = parse_call(f, case["mode"], case["pbf"], case["validate"])
+        ev["out"] = out
+        if m is not None:
+            ops = (("str", lambda: str(m)), ("repr", lambda: repr(m)), ("identity", lambda: m.identity), ("length", lambda: m.length),
+                   ("payload", lambda: m.payload), ("msgmode", lambda: m.msgmode), ("serialize", lambda: m.serialize()))
+            for name, fn in ops:
+                try:
+                    fn()
+                    ev["inspect"].append([name, "ok"])
+                except ObserverTimeout:
+                    raise
+                except Exception as ex:  # noqa: BLE001
+                    ev["inspect"].append([name, type(ex).__name__])
+    except ObserverTimeout:
+        ev["out"] = "hang"
+    finally:
+        signal.alarm(0)
+        signal.signal(signal.SIGALRM, old)
+    return ev
+
+
+OBSERVERS = {"c08": obs_c08, "c01": obs_c01, "c05_parse": obs_c05_parse, "c05_valnone": obs_c05_valnone}
